@@ -418,14 +418,14 @@ def inplace_family(ctx, prop):
     quick = ctx.tier == "quick"
     starts = list(dict.fromkeys(INPLACE_TEXTS + gen.PATTERN_TEXTS + gen.rule_test_texts()
                                 + gen.template_texts()[:: 9 if quick else 2]))
-    for _ in range(100 if quick else 3000):
+    for _ in range(100 if quick else 800):
         t = gen.rand_tree(rng, rng.choice([2, 3, 3, 4]), allow_eq=rng.random() < 0.3)
         txt, r = gen.reachable(t)
         if r is not None and core.tuple_size(r) <= 40:
             starts.append(txt)
-    length = 6 if quick else 25
-    jobs = [(s, rng.randrange(1 << 30), length) for s in starts for _ in range(3 if quick else 8)]
-    jobs += [(s, rng.randrange(1 << 30), length) for s in INPLACE_TEXTS for _ in range(30 if quick else 300)]
+    length = 6 if quick else 15
+    jobs = [(s, rng.randrange(1 << 30), length) for s in starts for _ in range(3 if quick else 4)]
+    jobs += [(s, rng.randrange(1 << 30), length) for s in INPLACE_TEXTS for _ in range(30 if quick else 100)]
     # ONE process per chunk of walks keeps its rule instances for all of them (long-lived rules)
     with mp.Pool(16) as pool:
         walks = [w for w in pool.imap(inplace_walk_case, jobs, chunksize=16) if w is not None]
